@@ -230,10 +230,88 @@ pub fn dispatch() -> Option<i32> {
 }
 
 pub mod ops {
+    use super::{hex_decode, hex_encode, hex_str};
+    use crate::style::Style;
+
+    fn color_str(c: Option<ansi_term::Color>) -> String {
+        use ansi_term::Color::*;
+        match c {
+            None => "-".to_string(),
+            Some(Black) => "n0".to_string(),
+            Some(Red) => "n1".to_string(),
+            Some(Green) => "n2".to_string(),
+            Some(Yellow) => "n3".to_string(),
+            Some(Blue) => "n4".to_string(),
+            Some(Purple) => "n5".to_string(),
+            Some(Cyan) => "n6".to_string(),
+            Some(White) => "n7".to_string(),
+            Some(Fixed(n)) => format!("f{n}"),
+            Some(RGB(r, g, b)) => format!("r{r:02x}{g:02x}{b:02x}"),
+        }
+    }
+
+    pub fn style_fields(st: &Style) -> String {
+        let a = st.ansi_term_style;
+        let mut attrs = Vec::new();
+        if a.is_bold { attrs.push("bold"); }
+        if a.is_dimmed { attrs.push("dim"); }
+        if a.is_italic { attrs.push("italic"); }
+        if a.is_underline { attrs.push("ul"); }
+        if a.is_blink { attrs.push("blink"); }
+        if a.is_reverse { attrs.push("reverse"); }
+        if a.is_hidden { attrs.push("hidden"); }
+        if a.is_strikethrough { attrs.push("strike"); }
+        format!(
+            "fg={};bg={};attrs={};omit={};raw={};syntax={}",
+            color_str(a.foreground),
+            color_str(a.background),
+            attrs.join(","),
+            st.is_omitted as u8,
+            st.is_raw as u8,
+            st.is_syntax_highlighted as u8
+        )
+    }
+
+    fn parse_style(s: &str, tc: &str) -> Style {
+        Style::from_str(s, None, None, tc == "1", None)
+    }
+
     pub fn run(fields: &[String]) -> String {
         match fields[0].as_str() {
             "ping" => "pong".to_string(),
-            op => format!("UNKNOWN-OP {op}"),
+            // style_parse <hex style string> <true_color>
+            "style_parse" => style_fields(&parse_style(&hex_str(&fields[1]), &fields[2])),
+            // style_display <hex style string> <true_color>
+            "style_display" => hex_encode(parse_style(&hex_str(&fields[1]), &fields[2]).to_string().as_bytes()),
+            // style_paint <hex style string> <true_color> <hex text>
+            "style_paint" => {
+                let st = parse_style(&hex_str(&fields[1]), &fields[2]);
+                hex_encode(st.paint(hex_str(&fields[3])).to_string().as_bytes())
+            }
+            // ansi_strings <true_color> <hex style>:<hex text>,...   (ansi_term::ANSIStrings)
+            "ansi_strings" => {
+                let mut parts = Vec::new();
+                for ent in fields[2].split(',').filter(|e| !e.is_empty()) {
+                    let (a, b) = ent.split_once(':').unwrap_or((ent, ""));
+                    let st = parse_style(&hex_str(a), &fields[1]);
+                    parts.push(st.ansi_term_style.paint(hex_str(b)));
+                }
+                hex_encode(ansi_term::ANSIStrings(&parts).to_string().as_bytes())
+            }
+            // strip_ansi <hex>  /  measure <hex>
+            "strip_ansi" => hex_encode(crate::ansi::strip_ansi_codes(&hex_str(&fields[1])).as_bytes()),
+            "measure" => format!("{}", crate::ansi::measure_text_width(&hex_str(&fields[1]))),
+            // truncate_str <hex s> <width> <hex tail>
+            "truncate_str" => {
+                let s = hex_str(&fields[1]);
+                let w: usize = fields[2].parse().unwrap_or(0);
+                let tail = hex_str(&fields[3]);
+                hex_encode(crate::ansi::truncate_str(&s, w, &tail).as_bytes())
+            }
+            op => {
+                let _ = hex_decode("");
+                format!("UNKNOWN-OP {op}")
+            }
         }
     }
 }
